@@ -98,9 +98,46 @@ fn words_of(v: &[C]) -> Value {
     Value::Array(v.iter().map(|&(re, im)| json!([f64_words(re), f64_words(im)])).collect())
 }
 
+/// A FRESH process in which several threads, released together, make the process's first complex inverse transform / split at
+/// n = 1024 (lazily initialised process-wide state must be complete for every thread that sees it).
+fn first_use_child(seed: u64, proc_id: u64, out_path: &str) {
+    let nthreads = 8usize;
+    let barrier = std::sync::Arc::new(std::sync::Barrier::new(nthreads));
+    let mut hs = vec![];
+    for t in 0..nthreads {
+        let barrier = barrier.clone();
+        hs.push(std::thread::spawn(move || {
+            crate::common::install_panic_hook();
+            let mut rng = rng_for(seed, &format!("c13-first-use-{}-{}", proc_id, t));
+            let n = 1024usize;
+            let a: Vec<i64> = (0..n).map(|_| rng.gen_range(-(1i64 << 14)..=(1 << 14))).collect();
+            let fa = lift(&a);
+            barrier.wait();
+            let r1 = guarded(|| verif::cifft(&verif::cfft(&fa)));
+            let r2 = guarded(|| {
+                let (s0, s1) = verif::csplit(&verif::cfft(&fa));
+                verif::cifft(&verif::cmerge(&s0, &s1))
+            });
+            vec![comp_event("roundtrip", n, &a, &[], r1, "first-use-concurrent"), comp_event("mergesplit", n, &a, &[], r2, "first-use-concurrent")]
+        }));
+    }
+    let mut s = String::new();
+    for h in hs {
+        for e in h.join().unwrap() {
+            s.push_str(&serde_json::to_string(&e).unwrap());
+            s.push('\n');
+        }
+    }
+    std::fs::write(out_path, s).unwrap();
+}
+
 pub fn c13(args: &Args) {
     let seed = args.num("--seed", 1);
     let thorough = args.thorough();
+    if let Some(o) = args.get("--child-out") {
+        first_use_child(seed, args.num("--proc", 1), &o);
+        return;
+    }
     let dir = PathBuf::from(args.get_or("--out", "work/c13"));
     let mut out = Shards::create(&dir, "fft", args.num("--shards", 12) as usize);
     let mut rng = rng_for(seed, "c13");
@@ -191,6 +228,34 @@ pub fn c13(args: &Args) {
             let (s0, s1) = verif::csplit(&verif::cfft(&fa));
             verif::cifft(&verif::cmerge(&s0, &s1))
         }), "order"));
+    }
+    // fresh processes whose first transforms run concurrently on 8 threads
+    {
+        let exe = std::env::current_exe().unwrap();
+        let nproc = if thorough { 24 } else { 8 };
+        let mut kids = vec![];
+        for pid in 0..nproc {
+            let o = dir.join(format!("firstuse{}.tmp", pid));
+            let k = std::process::Command::new(&exe).arg("c13").arg("--seed").arg(seed.to_string()).arg("--proc").arg(pid.to_string())
+                .arg("--child-out").arg(&o).spawn().unwrap();
+            kids.push((k, o));
+            if kids.len() % 4 == 0 {
+                for (k, _) in kids.iter_mut() {
+                    let _ = k.wait();
+                }
+            }
+        }
+        for (mut k, o) in kids {
+            let _ = k.wait();
+            if let Ok(s) = std::fs::read_to_string(&o) {
+                for l in s.lines() {
+                    if let Ok(v) = serde_json::from_str::<Value>(l) {
+                        out.emit(v);
+                    }
+                }
+            }
+            let _ = std::fs::remove_file(&o);
+        }
     }
     println!("events {}", out.finish());
 }
